@@ -19,6 +19,7 @@ RULE = (
     "against float64 reference scores with a tie-tolerant predicate, output = plain average of the selected rows). "
     "Non-trivial = at least one corrupted row of magnitude >= 1e3 x honest scale (Krum: additionally k >= 2 or "
     "f >= 1). Distinct = distinct (matrix, parameters)."
+    " A quarter of the cases add 20-40 rows (one in ten of those 130 / 300 / 600); one case in 14 is widened by 5000 / 70 000 columns."
 )
 ASSUMPTIONS = [
     "CPU, torch as installed; float32 reference runs in float64 on the float32-rounded inputs",
